@@ -46,8 +46,11 @@ var (
 // A chan argument will be used to deliver parse results.
 func Parse(buf []byte, args ...any) (any, error) {
 	p, _ := parserPool.Get().(*Parser)
+	verifHook("sen.Parse.get", p)
 	p.Reuse = false
+	defer verifHook("sen.Parse.put", p)
 	defer parserPool.Put(p)
+	defer verifHook("sen.Parse.putting", p)
 	return p.Parse(buf, args...)
 }
 
@@ -62,8 +65,11 @@ func Parse(buf []byte, args ...any) (any, error) {
 // A chan argument will be used to deliver parse results.
 func MustParse(buf []byte, args ...any) any {
 	p := parserPool.Get().(*Parser)
+	verifHook("sen.MustParse.get", p)
 	p.Reuse = false
+	defer verifHook("sen.MustParse.put", p)
 	defer parserPool.Put(p)
+	defer verifHook("sen.MustParse.putting", p)
 	val, err := p.Parse(buf, args...)
 	if err != nil {
 		panic(err)
@@ -82,8 +88,11 @@ func MustParse(buf []byte, args ...any) any {
 // A chan argument will be used to deliver parse results.
 func ParseReader(r io.Reader, args ...any) (data any, err error) {
 	p, _ := parserPool.Get().(*Parser)
+	verifHook("sen.ParseReader.get", p)
 	p.Reuse = false
+	defer verifHook("sen.ParseReader.put", p)
 	defer parserPool.Put(p)
+	defer verifHook("sen.ParseReader.putting", p)
 	return p.ParseReader(r, args...)
 }
 
@@ -99,8 +108,11 @@ func ParseReader(r io.Reader, args ...any) (data any, err error) {
 // A chan argument will be used to deliver parse results.
 func MustParseReader(r io.Reader, args ...any) (data any) {
 	p := parserPool.Get().(*Parser)
+	verifHook("sen.MustParseReader.get", p)
 	p.Reuse = false
+	defer verifHook("sen.MustParseReader.put", p)
 	defer parserPool.Put(p)
+	defer verifHook("sen.MustParseReader.putting", p)
 	var err error
 	if data, err = p.ParseReader(r, args...); err != nil {
 		panic(err)
@@ -134,7 +146,10 @@ func String(data any, args ...any) string {
 	}
 	if wr == nil {
 		wr, _ = writerPool.Get().(*Writer)
+		verifHook("sen.String.get", wr)
+		defer verifHook("sen.String.put", wr)
 		defer writerPool.Put(wr)
+		defer verifHook("sen.String.putting", wr)
 	}
 	return wr.SEN(data)
 }
@@ -153,7 +168,10 @@ func Bytes(data any, args ...any) []byte {
 	}
 	if wr == nil {
 		wr, _ = writerPool.Get().(*Writer)
+		verifHook("sen.Bytes.get", wr)
+		defer verifHook("sen.Bytes.put", wr)
 		defer writerPool.Put(wr)
+		defer verifHook("sen.Bytes.putting", wr)
 		// The writer goes back to the pool and can be picked up by any
 		// other goroutine so the buffer must not be shared with the caller.
 		b := wr.MustSEN(data)
@@ -176,7 +194,10 @@ func Write(w io.Writer, data any, args ...any) (err error) {
 	}
 	if wr == nil {
 		wr, _ = writerPool.Get().(*Writer)
+		verifHook("sen.Write.get", wr)
+		defer verifHook("sen.Write.put", wr)
 		defer writerPool.Put(wr)
+		defer verifHook("sen.Write.putting", wr)
 	}
 	return wr.Write(w, data)
 }
